@@ -2,7 +2,8 @@
 """Regenerates MANIFEST.json from props.json (claimed properties) and properties.jsonl (all ids)."""
 import json, os
 ROOT = os.path.dirname(os.path.abspath(__file__))
-props = json.load(open(os.path.join(ROOT, 'props.json')))
+import glob
+props = {os.path.basename(p)[:-5]: json.load(open(p)) for p in glob.glob(os.path.join(ROOT, 'props', 'C*.json'))}
 allids = [json.loads(l)['id'] for l in open(os.path.join(ROOT, 'properties.jsonl'))]
 na = json.load(open(os.path.join(ROOT, 'not_applicable.json')))
 checks = []
